@@ -65,7 +65,7 @@ sim::Json GenOpts::to_json() const {
     j["allow_msw"] = allow_msw; j["allow_history"] = allow_history; j["allow_groups"] = allow_groups;
     j["restart_safe_conditions"] = restart_safe_conditions; j["nonmidnight"] = nonmidnight; j["step_events"] = step_events;
     j["action_inline_safe"] = action_inline_safe; j["vector_target"] = vector_target; j["units"] = units;
-    j["fmtout"] = fmtout; j["unifout"] = unifout; j["esmry"] = esmry; j["rptonly"] = rptonly; j["sumthin"] = sumthin; j["date_conditions"] = date_conditions; j["nested_parens"] = nested_parens; j["stop_safe"] = stop_safe; j["weltarg_safe"] = weltarg_safe; j["cond_well_bias"] = cond_well_bias; j["min_wells"] = min_wells;
+    j["fmtout"] = fmtout; j["unifout"] = unifout; j["esmry"] = esmry; j["rptonly"] = rptonly; j["sumthin"] = sumthin; j["date_conditions"] = date_conditions; j["nested_parens"] = nested_parens; j["stop_safe"] = stop_safe; j["weltarg_safe"] = weltarg_safe; j["cond_well_bias"] = cond_well_bias; j["min_wells"] = min_wells; j["reparent_groups"] = reparent_groups;
     return j;
 }
 GenOpts GenOpts::from_json(const Json& j) {
@@ -77,7 +77,7 @@ GenOpts GenOpts::from_json(const Json& j) {
     o.step_events = j.getb("step_events", o.step_events); o.action_inline_safe = j.getb("action_inline_safe", o.action_inline_safe);
     o.vector_target = static_cast<int>(j.geti("vector_target", 0)); o.units = j.gets("units", "");
     o.fmtout = static_cast<int>(j.geti("fmtout", -1)); o.unifout = static_cast<int>(j.geti("unifout", -1)); o.esmry = j.getb("esmry", false);
-    o.rptonly = j.getb("rptonly", false); o.sumthin = j.getb("sumthin", false); o.date_conditions = j.getb("date_conditions", o.date_conditions); o.nested_parens = j.getb("nested_parens", o.nested_parens); o.stop_safe = j.getb("stop_safe", o.stop_safe); o.cond_well_bias = j.getd("cond_well_bias", 0.0); o.min_wells = static_cast<int>(j.geti("min_wells", 1)); o.weltarg_safe = j.getb("weltarg_safe", false);   // absent in replay files written before the knob existed
+    o.rptonly = j.getb("rptonly", false); o.sumthin = j.getb("sumthin", false); o.date_conditions = j.getb("date_conditions", o.date_conditions); o.nested_parens = j.getb("nested_parens", o.nested_parens); o.stop_safe = j.getb("stop_safe", o.stop_safe); o.cond_well_bias = j.getd("cond_well_bias", 0.0); o.min_wells = static_cast<int>(j.geti("min_wells", 1)); o.reparent_groups = j.getb("reparent_groups", false); o.weltarg_safe = j.getb("weltarg_safe", false);   // absent in replay files written before the knob existed
     return o;
 }
 
@@ -95,6 +95,7 @@ struct Gen {
     Rng rng; const GenOpts& o; Model m;
     std::map<std::string, int> depth;             // group depth (FIELD = 0)
     std::set<std::string> node_groups, leaf_groups;
+    std::map<std::string, std::string> parent_of;       // static group tree while blocks are generated (re-parenting events update it)
     double rate_scale = 1, pres_scale = 1;
     Gen(std::uint64_t seed, const GenOpts& oo) : rng(seed), o(oo) { m.seed = seed; }
 
@@ -200,11 +201,32 @@ struct Gen {
         return cs;
     }
 
+    bool is_descendant(const std::string& g, const std::string& anc) const { std::string c = g; int guard = 0; while (c != "FIELD" && guard++ < 16) { auto it = parent_of.find(c); if (it == parent_of.end()) return false; c = it->second; if (c == anc) return true; } return false; }
+    int depth_of(const std::string& g) const { int d = 0; std::string c = g; while (c != "FIELD" && d < 16) { auto it = parent_of.find(c); if (it == parent_of.end()) break; c = it->second; ++d; } return d; }
+    int height_of(const std::string& g) const { int h = 0; for (auto& kv : parent_of) if (kv.second == g) h = std::max(h, 1 + height_of(kv.first)); return h; }
+    // GRUPTREE record that moves an existing group under another parent ("" if no legal move exists)
+    Kw reparent(bool to_field_only) {
+        Kw k; k.name = "GRUPTREE";
+        std::vector<std::string> gs; for (auto& kv : parent_of) gs.push_back(kv.first);
+        for (int attempt = 0; attempt < 8 && !gs.empty(); ++attempt) {
+            const std::string child = gs[rng.below(gs.size())];
+            std::vector<std::string> cand = {"FIELD"};
+            if (!to_field_only) for (auto& n : node_groups) if (n != "FIELD" && n != child && !is_descendant(n, child) && depth_of(n) + 1 + height_of(child) <= 4) cand.push_back(n);
+            const std::string np = cand[rng.below(cand.size())];
+            if (np == parent_of[child]) continue;
+            k.recs.push_back({q(child), q(np)});
+            if (!to_field_only) { parent_of[child] = np; node_groups.insert(np); }
+            return k;
+        }
+        return k;
+    }
+
     Kw body_kw(bool inline_safe) {
         Kw k;
         auto wn = [&]() { return rng.chance(0.6) ? std::string("?") : m.wells[rng.below(m.wells.size())].name; };
         std::vector<std::string> prods; for (auto& w : m.wells) if (w.kind == "OPROD" && !w.history) prods.push_back(w.name);
         double u = rng.unit();
+        if (o.reparent_groups && u < 0.08) { k = reparent(true); if (!k.recs.empty()) return k; k = Kw(); }
         if (u < 0.35) { k.name = "WELOPEN"; static const char* st[] = {"SHUT", "OPEN", "STOP", "SHUT"}; k.recs.push_back({q(wn()), q(st[rng.below(4)])}); }
         else if (u < 0.55) { k.name = "WEFAC"; k.recs.push_back({q(wn()), num(efac())}); }
         else if (u < 0.70 && !prods.empty()) { k.name = "WELTARG"; static const char* md[] = {"ORAT", "LRAT", "BHP", "WRAT"}; std::string mo = md[rng.below(4)]; k.recs.push_back({q(prods[rng.below(prods.size())]), q(mo), num(mo == "BHP" ? bhp_lim(false) : rate())}); }
@@ -271,7 +293,7 @@ struct Gen {
             for (auto& p : groups) if (depth[p] < 3) cand.push_back(p);
             std::string parent = rng.chance(0.35) ? std::string("FIELD") : cand[rng.below(cand.size())];
             depth[name] = depth[parent] + 1;
-            m.gruptree.push_back({name, parent});
+            m.gruptree.push_back({name, parent}); parent_of[name] = parent;
             node_groups.insert(parent);
             groups.push_back(name);
         }
@@ -358,7 +380,8 @@ struct Gen {
             for (int e = 0; e < ne; ++e) {
                 double u = rng.unit(); Kw k;
                 const WellDef& w = m.wells[rng.below(m.wells.size())];
-                if (u < 0.2) { k.name = "WEFAC"; k.recs.push_back({q(w.name), num(efac())}); }
+                if (o.reparent_groups && u < 0.12) { k = reparent(false); if (k.recs.empty()) { k.name = "WEFAC"; k.recs.push_back({q(w.name), num(efac())}); } }
+                else if (u < 0.2) { k.name = "WEFAC"; k.recs.push_back({q(w.name), num(efac())}); }
                 else if (u < 0.32) { k.name = "GEFAC"; k.recs.push_back({q(groups[rng.below(groups.size())]), num(efac())}); }
                 else if (u < 0.5) { k.name = "WELOPEN"; static const char* s3[] = {"SHUT", "OPEN", "STOP"}; k.recs.push_back({q(w.name), q(s3[rng.below(3)])}); }
                 else if (u < 0.8) k = wcon(w, rng.chance(0.85) ? "OPEN" : "SHUT");
